@@ -12,8 +12,8 @@ CFG = dict(
     classify=classify,
     imports=["From Verif.Common Require Import Labels.", "From Verif.C07 Require Import Model Spec."],
     checker="check_case",
-    n=dict(quick=320, thorough=8000),
-    shard=40,
+    n=dict(quick=240, thorough=8000),
+    shard=30,
     rule="five streams on the real code: (idx, 40%) histories of 10-35 calls of UpdateLabels/DeleteLabels/UpdateParentLabels/"
          "DeleteParentLabels/UpdateSelector/DeleteSelector on the real InheritIndex over 2-4 items, 1-3 parents, 2-4 selector ids, "
          "labels a,b,c with values x,y,z,xy,yx (own labels overriding inherited ones, nil/empty/non-empty parent label maps, duplicate "
@@ -43,7 +43,9 @@ CFG = dict(
                  "findMostRestrictedLabel; iterEndpointCandidates is modelled and proved for every order)",
                  "LabelNameStrategy's count field is modelled by its value (number of stored (item,label) entries); "
                  "estimateParentEndpointScanCount is modelled exactly for scans of at most 10 parents (the theorem holds for any estimate)",
-                 "a panic of the real code on a valid history is a failing case (CCrash/CPanic)"],
+                 "a panic of the real code on a valid history is a failing case (CCrash/CPanic)",
+                 "sort.Slice yields the ascending arrangement; the slice-level summaries (restrictions_f: in-place sort/dedup, bisection "
+                 "Contains, append order) are compared with the real LabelRestrictions() value for value in order"],
 )
 
 def run(ctx):
